@@ -30,3 +30,44 @@ pub mod c29;
 pub mod c30;
 pub mod c31;
 pub mod c32;
+
+use crate::engine::Ctx;
+pub type Runner = fn(&mut Ctx);
+
+/// (property id, run function, property-level rule text)
+pub fn registry() -> Vec<(&'static str, Runner, &'static str)> {
+    vec![
+        ("C01", c01::run as Runner, c01::RULE),
+        ("C02", c02::run as Runner, c02::RULE),
+        ("C03", c03::run as Runner, c03::RULE),
+        ("C04", c04::run as Runner, c04::RULE),
+        ("C05", c05::run as Runner, c05::RULE),
+        ("C06", c06::run as Runner, c06::RULE),
+        ("C07", c07::run as Runner, c07::RULE),
+        ("C08", c08::run as Runner, c08::RULE),
+        ("C09", c09::run as Runner, c09::RULE),
+        ("C10", c10::run as Runner, c10::RULE),
+        ("C11", c11::run as Runner, c11::RULE),
+        ("C12", c12::run as Runner, c12::RULE),
+        ("C13", c13::run as Runner, c13::RULE),
+        ("C14", c14::run as Runner, c14::RULE),
+        ("C15", c15::run as Runner, c15::RULE),
+        ("C16", c16::run as Runner, c16::RULE),
+        ("C17", c17::run as Runner, c17::RULE),
+        ("C18", c18::run as Runner, c18::RULE),
+        ("C19", c19::run as Runner, c19::RULE),
+        ("C20", c20::run as Runner, c20::RULE),
+        ("C21", c21::run as Runner, c21::RULE),
+        ("C22", c22::run as Runner, c22::RULE),
+        ("C23", c23::run as Runner, c23::RULE),
+        ("C24", c24::run as Runner, c24::RULE),
+        ("C25", c25::run as Runner, c25::RULE),
+        ("C26", c26::run as Runner, c26::RULE),
+        ("C27", c27::run as Runner, c27::RULE),
+        ("C28", c28::run as Runner, c28::RULE),
+        ("C29", c29::run as Runner, c29::RULE),
+        ("C30", c30::run as Runner, c30::RULE),
+        ("C31", c31::run as Runner, c31::RULE),
+        ("C32", c32::run as Runner, c32::RULE),
+    ]
+}
